@@ -438,7 +438,8 @@ def update_concurrent(ctx, prog, nthreads):
                 add['bytes_dropped'] = add['bytes_dropped'] + ls[i]
                 add['packets_dropped'] = add['packets_dropped'] + 1
         t0 = time.time()
-        res, info = atomic_sched.interleave(threads, init, lambda mem: z3.And(*[mem[l] == init[l] + add[l] for l in labels]))
+        res, info = atomic_sched.interleave(threads, init, lambda mem: z3.And(*[mem[l] == init[l] + add[l] for l in labels]),
+                                            timeout_ms=900000 if ctx.out.tier == 'thorough' else 120000)
         ctx.obligations += 1
         ctx.sched_queries = getattr(ctx, 'sched_queries', 0) + 1
         ctx.sched_time = getattr(ctx, 'sched_time', 0.0) + time.time() - t0
